@@ -91,18 +91,22 @@ func c05R1(p *core.Prog, r *core.Report) {
 	fname := p.FuncName(fn)
 	var rename ssa.Instruction
 	var cp *ssa.Call
-	core.Calls(fn, func(c ssa.CallInstruction) {
-		cal := core.Callee(c)
-		if cal == nil {
-			return
-		}
-		if isOS(cal, "Rename") {
-			rename = c.(ssa.Instruction)
-		}
-		if core.IsFunc(cal, "io", "Copy") || core.IsFunc(cal, "io", "CopyN") || core.IsFunc(cal, "io", "CopyBuffer") {
-			cp, _ = c.(*ssa.Call)
-		}
-	})
+	// the copy into the temp file may live in an unexported helper that BlobPut hands the stream to
+	scope := core.Helpers(fn, 1)
+	for _, f := range sortedFuncs(scope) {
+		core.Calls(f, func(c ssa.CallInstruction) {
+			cal := core.Callee(c)
+			if cal == nil {
+				return
+			}
+			if isOS(cal, "Rename") && f == fn {
+				rename = c.(ssa.Instruction)
+			}
+			if core.IsFunc(cal, "io", "Copy") || core.IsFunc(cal, "io", "CopyN") || core.IsFunc(cal, "io", "CopyBuffer") {
+				cp, _ = c.(*ssa.Call)
+			}
+		})
+	}
 	if rename == nil || cp == nil {
 		r.Undecided(rule, fname, "commit", p.Pos(fn.Pos()), "os.Rename / io.Copy not found")
 		return
@@ -121,7 +125,7 @@ func c05R1(p *core.Prog, r *core.Report) {
 		if depth > 6 {
 			return false
 		}
-		os := core.Origins(v, core.SliceOpts{})
+		os := core.Origins(v, core.SliceOpts{Helpers: scope})
 		if len(os) == 0 {
 			return false
 		}
@@ -163,7 +167,13 @@ func c05R1(p *core.Prog, r *core.Report) {
 			if depth > 6 {
 				return
 			}
-			for _, oc := range originCalls(v) {
+			var ocs []*ssa.Call
+			for _, o := range core.Origins(v, core.SliceOpts{Helpers: scope}) {
+				if o.Kind == core.OCall {
+					ocs = append(ocs, o.Call)
+				}
+			}
+			for _, oc := range ocs {
 				cal := core.Callee(oc)
 				if cal == nil {
 					continue
@@ -194,8 +204,8 @@ func c05R1(p *core.Prog, r *core.Report) {
 	size := mismatchEdges(fn, func(bo *ssa.BinOp) bool {
 		// i != d.Size : one side is the byte count returned by the copy
 		for _, side := range []ssa.Value{bo.X, bo.Y} {
-			for _, oc := range originCalls(side) {
-				if oc == cp {
+			for _, o := range core.Origins(side, core.SliceOpts{Helpers: scope}) {
+				if o.Kind == core.OCall && o.Call == cp && (o.Res == 0 || o.Res == -1) {
 					return true
 				}
 			}
